@@ -246,6 +246,15 @@ fn enum_bodies(t: Tier, shard: usize, n: usize, f: &mut dyn FnMut(Bytes) -> bool
                     return;
                 }
             }
+            // a fourth header whose id octets, read as label lengths from offset 0 or 1, span the message up to its
+            // last octet: a pointer into the header then walks forward over the body and stops on the final octet
+            if len >= 2 {
+                let mut m = vec![(12 + len - 2) as u8, (12 + len - 3) as u8, 0, 0, 0, 1, 0, 0, 0, 0, 0, 0];
+                m.extend_from_slice(&body);
+                if !f(Bytes(m)) {
+                    return;
+                }
+            }
         }
     }
 }
@@ -281,6 +290,12 @@ pub struct Graph {
     pub repeat_last: u16,
     /// as questions (true) or as answer records with RDLENGTH 0
     pub as_questions: bool,
+    /// the id octets (label lengths for pointers into the header)
+    #[serde(default)]
+    pub id: u16,
+    /// 0: nothing; 1..=3: one stray octet (0xC0, 0xFF, 0x3F) appended; 4..=6: the last 1..3 octets cut off
+    #[serde(default)]
+    pub tail: u8,
 }
 
 pub fn render_graph(g: &Graph) -> Vec<u8> {
@@ -325,6 +340,18 @@ pub fn render_graph(g: &Graph) -> Vec<u8> {
     }
     let o = if g.as_questions { 4 } else { 6 };
     m[o..o + 2].copy_from_slice(&(count as u16).to_be_bytes());
+    m[0..2].copy_from_slice(&g.id.to_be_bytes());
+    match g.tail {
+        1 => m.push(0xc0),
+        2 => m.push(0xff),
+        3 => m.push(0x3f),
+        4..=6 => {
+            let cut = (g.tail - 3) as usize;
+            let keep = m.len().saturating_sub(cut).max(12);
+            m.truncate(keep);
+        }
+        _ => {}
+    }
     m
 }
 
@@ -360,8 +387,10 @@ pub fn graph_strategy(t: Tier) -> BoxedStrategy<Graph> {
         vec(frag(), 1..40),
         prop_oneof![6 => Just(0u16), 3 => 0u16..200, 1 => 0..=big],
         any::<bool>(),
+        prop_oneof![2 => Just(0u16), 2 => (0u16..40, 0u16..40).prop_map(|(a, b)| (a << 8) | b), 1 => any::<u16>()],
+        prop_oneof![3 => Just(0u8), 2 => 1u8..=6],
     )
-        .prop_map(|(frags, repeat_last, as_questions)| Graph { frags, repeat_last, as_questions })
+        .prop_map(|(frags, repeat_last, as_questions, id, tail)| Graph { frags, repeat_last, as_questions, id, tail })
         .boxed()
 }
 
@@ -462,7 +491,7 @@ fn check_mutated(input: &Mutated, case: &mut Case) -> Result<(), Fail> {
 pub fn def() -> CheckDef {
     CheckDef {
         id: "C01",
-        rule: "byte strings fed to Packet::parse and to the 8 header-peek functions under panic capture, a per-thread heap meter (bound 64 KiB + 1024*len; hard cap 1 GiB) and a thread-CPU-time watchdog (5 s, confirmed at 20 s): (1) every truncation and every single-byte perturbation {-1,+1,0,0xff,^0x80,|0xc0,&0x3f} plus section-count edits of reference encodings of all 40 types/unknown/NULL/empty in single and multi-record, plain and compressed form, OPT at each additional position, every RDLENGTH value from 0 to natural+2; (1b) for each type (typed, empty, unknown) messages holding 400 / 2500 (5000 thorough) records of that one type in each section; (2) all buffers of length 0..=4 over 7 symbols and lengths 5..=13; (3) 3 fixed headers x all bodies of length <= 6 (7 thorough) over a 12-symbol alphabet; (4) generated pointer graphs (chains, self/forward/absolute pointers, up to 64 KiB); (5) reference encodings with random compression and 0..8 random mutations. Non-trivial = at least a 12-byte header with Z clear (the parser reaches the sections); distinct by hash of the input",
+        rule: "byte strings fed to Packet::parse and to the 8 header-peek functions under panic capture, a per-thread heap meter (bound 64 KiB + 1024*len; hard cap 1 GiB) and a thread-CPU-time watchdog (5 s, confirmed at 20 s): (1) every truncation and every single-byte perturbation {-1,+1,0,0xff,^0x80,|0xc0,&0x3f} plus section-count edits of reference encodings of all 40 types/unknown/NULL/empty in single and multi-record, plain and compressed form, OPT at each additional position, every RDLENGTH value from 0 to natural+2; (1b) for each type (typed, empty, unknown) messages holding 400 / 2500 (5000 thorough) records of that one type in each section; (2) all buffers of length 0..=4 over 7 symbols and lengths 5..=13; (3) 3 fixed headers, and one whose id octets are label lengths spanning the whole message, x all bodies of length <= 6 (7 thorough) over a 12-symbol alphabet; (4) generated pointer graphs (chains, self/forward/absolute pointers, up to 64 KiB); (5) reference encodings with random compression and 0..8 random mutations. Non-trivial = at least a 12-byte header with Z clear (the parser reaches the sections); distinct by hash of the input",
         assumptions: vec![
             "time is asserted only coarsely (CPU watchdog): the decoder's cost is bounded by the backwards-only pointer rule and the 255-byte name budget, measured maxima are reported under coverage.maxima",
             "heap bound calibrated on the densest legitimate input (a 2-byte pointer expanding to 127 labels: ~515 heap bytes per input byte)",
